@@ -1,14 +1,24 @@
-impl Chunk {
-    /// the first span recorded for instruction idx (None if it has none): the contract of get_span
-    pub uninterp spec fn span_spec(&self, idx: u32) -> Option<Span>;
-    #[verifier::external_body]
-    pub fn get_span(&self, idx: u32) -> (r: Option<&Span>)
-        ensures r is Some == self.span_spec(idx) is Some, r is Some ==> *r->Some_0 == self.span_spec(idx)->Some_0
-    { unimplemented!() }
-}
-
 // #[derive(Clone)] on Span (checked to exist in the real source): the derived clone returns an equal value
 impl Clone for Span {
     #[verifier::external_body]
     fn clone(&self) -> (r: Self) ensures r == *self { unimplemented!() }
+}
+
+/// the spans recorded for instruction `idx` (one per path element for a fused path load/write, in source order)
+pub open spec fn spans_of(c: &Chunk, idx: u32) -> Seq<Span> {
+    if (idx as int) < c.instructions@.len() { c.instructions@[idx as int].1@ } else { Seq::empty() }
+}
+/// where the code of instruction `idx` starts in the source
+pub open spec fn first_span(c: &Chunk, idx: u32) -> Option<Span> {
+    if spans_of(c, idx).len() > 0 { Some(spans_of(c, idx)[0]) } else { None }
+}
+/// where the code of instruction `idx` ends in the source: a fused path `a.b.c` ends with its LAST element
+pub open spec fn last_span(c: &Chunk, idx: u32) -> Option<Span> {
+    if spans_of(c, idx).len() > 0 { Some(spans_of(c, idx).last()) } else { None }
+}
+/// C12: the span reported for a value computed by instructions `s ..= e` covers the expression: it starts
+/// where the first instruction's code starts and ends where the last instruction's code ends
+pub open spec fn covers_range(r: Span, s: Span, e: Span) -> bool {
+    &&& r.start_line == s.start_line && r.start_col == s.start_col && r.range.start == s.range.start
+    &&& r.end_line == e.end_line && r.end_col == e.end_col && r.range.end == e.range.end
 }
